@@ -29,6 +29,8 @@ def cases(tier):
         fx = fixture('C16', fam, o, tag='report')
         for k in ((1,) if tier == 'quick' else (1, 2, 3)):
             L.append(fsm_case('C16', fx, 'report_imm%d' % k, ['P_C16S', 'P_C01', 'CB_KINDS=0x9e', 'CB_BUDGET=1', 'ENTRY=2', 'KIND=%d' % k], timeout=900 * T, witness=(k == 1)))
+        # reset() is a step too: the report must follow it
+        L.append(fsm_case('C16', fx, 'report_reset', ['P_C16S', 'P_C01', 'CB_KINDS=0x9e', 'CB_BUDGET=0', 'ENTRY=4'], timeout=600 * T, witness=False))
     mark_cover(L, ['c16.f5.imm1', 'c16.f5.update'])
     return L
 
